@@ -225,6 +225,74 @@ theorem value_of_fresh {V} (cfg : Cfg) (sem : Sem V) (o : Obs) (h : o.fresh) :
     o.value sem = freshValue cfg sem o.cur o.pvals o.ev o.x o.t := by
   rw [freshValue_eq]; unfold Obs.value; rw [h.1, h.2]
 
+/-! ### two live instances: per-instance flag stores do not interact -/
+
+theorem mem_obsOf {w : Who} {o : Obs} {os : List (Who × Obs)} (h : (w, o) ∈ os) : o ∈ obsOf w os := by
+  unfold obsOf
+  rw [List.mem_filterMap]
+  exact ⟨(w, o), h, by simp⟩
+
+/-- with one flag store per canary object (`shared = false`) the observations an instance makes in ANY interleaving
+with operations on the other instance are those of its own operations run alone -/
+theorem obsOf_prun (cfg : Cfg) (ops : List (Who × Op)) (p : PState) :
+    obsOf .A (prun cfg false p ops) = run cfg p.a (opsOf .A ops) ∧
+    obsOf .B (prun cfg false p ops) = run cfg p.b (opsOf .B ops) := by
+  induction ops generalizing p with
+  | nil => exact ⟨rfl, rfl⟩
+  | cons wo ops ih =>
+    obtain ⟨w, op⟩ := wo
+    cases w with
+    | A =>
+      have ih' := ih (pstep cfg false p (.A, op)).1
+      simp only [pstep, Bool.false_eq_true, if_false] at ih'
+      simp only [prun, pstep, Bool.false_eq_true, if_false, opsOf, List.filterMap_cons, if_true, run]
+      cases hr : (step cfg p.a op).2 with
+      | none =>
+        simp only [hr] at ih' ⊢
+        exact ⟨by simpa [obsOf, opsOf] using ih'.1, by simpa [obsOf, opsOf] using ih'.2⟩
+      | some o =>
+        simp only [hr] at ih' ⊢
+        refine ⟨?_, ?_⟩
+        · have := ih'.1
+          simp only [obsOf, opsOf, List.filterMap_cons, if_true] at this ⊢
+          rw [this]
+        · have := ih'.2
+          simp only [obsOf, opsOf, List.filterMap_cons] at this ⊢
+          simpa using this
+    | B =>
+      have ih' := ih (pstep cfg false p (.B, op)).1
+      simp only [pstep, Bool.false_eq_true, if_false] at ih'
+      simp only [prun, pstep, Bool.false_eq_true, if_false, opsOf, List.filterMap_cons, if_true, run]
+      cases hr : (step cfg p.b op).2 with
+      | none =>
+        simp only [hr] at ih' ⊢
+        exact ⟨by simpa [obsOf, opsOf] using ih'.1, by simpa [obsOf, opsOf] using ih'.2⟩
+      | some o =>
+        simp only [hr] at ih' ⊢
+        refine ⟨?_, ?_⟩
+        · have := ih'.1
+          simp only [obsOf, opsOf, List.filterMap_cons] at this ⊢
+          simpa using this
+        · have := ih'.2
+          simp only [obsOf, opsOf, List.filterMap_cons, if_true] at this ⊢
+          rw [this]
+
+theorem evalsWatched_opsOf (cfg : Cfg) (w : Who) (ops : List (Who × Op))
+    (h : ∀ wo ∈ ops, ∀ e x t, wo.2 = Op.evaluate e x t → cfg.watched e = true) : evalsWatched cfg (opsOf w ops) := by
+  induction ops with
+  | nil => trivial
+  | cons wo ops ih =>
+    have ih' := ih (fun wo' hm => h wo' (by simp [hm]))
+    obtain ⟨w', op⟩ := wo
+    by_cases hw : w' = w
+    · simp only [opsOf, List.filterMap_cons, hw, if_true]
+      cases op with
+      | mutate m => exact ih'
+      | setParams v => exact ih'
+      | evaluate e x t => exact ⟨h (w', .evaluate e x t) (by simp) e x t rfl, ih'⟩
+    · simp only [opsOf, List.filterMap_cons, hw, if_false]
+      exact ih'
+
 /-! ### prefixes without evaluations -/
 
 def noEval : List Op → Prop
